@@ -94,7 +94,7 @@ KERNELS = {
     "K2": "def K2():\n    x = lib_park()\n    lib_gate()\n    return x\n",
     "K6": "def K6(x: float):\n    lib_gate()\n    lib_hopx(x)\n    return 6\n",       # its device call can only be evaluated at run time
     "K7": "def K7():\n    return lib_raw(1)\n",                                   # reaches a subroutine that was defined without folding
-    "K5": "def K5():\n    lib_gate()\n    return lib_dyn(2)\n",
+    "K5": "def K5():\n    lib_gate()\n    return lib_dyn(3)\n",      # (tone lists no shared subroutine builds with constants: (0, 1, 2) x (0))
     "K4": "def K4():\n    return lib_layer(1)\n",
     # a subroutine that hands out a closure which captured another closure doing the lookup
     "K8": "def K8():\n    get = lib_getter()\n    z = get()\n    gate.local_rz(0.5, z)\n    return 8\n",
@@ -195,7 +195,7 @@ def expected_logs(specs):
     return out
 
 
-NATIVE_KERNELS = ["K1", "K2", "K4", "K6", "K7", "K8", "K9"]       # K3 uses a library kernel, K5 a kirin-only list constructor
+NATIVE_KERNELS = ["K1", "K2", "K4", "K5", "K6", "K7", "K8", "K9"]       # K3 uses a library kernel
 
 
 def source_reference(ctx, specs, expect):
@@ -269,8 +269,55 @@ def run_history(ctx, hist, specs, expect, base_behaviour):
         ctx.nt(tuple(map(tuple, hist)))
 
 
+def native_logs(specs):
+    from gen import move_native
+    w = World(specs)
+    out = {}
+    for kname in NATIVE_KERNELS:
+        for sk, S in specs.items():
+            nat = move_native.run_native(SHARED + "\n@move\n" + KERNELS[kname], KARGS.get(kname, ()), S, kernel_ns={"hop": w.ns["hop"]}, main=kname)
+            if nat[0] == "ok":
+                out[(kname, sk)] = tuple(events.events_text(nat[1], tc.PosTable()))
+    return out
+
+
+def first_histories(ctx, specs):
+    """histories run BEFORE anything else of this check has executed a shared subroutine in this process: the expectation is the source
+    evaluated natively (no kernel of the package is interpreted to obtain it), so that nothing this check does first can hide what an
+    earlier compilation leaves behind for a later one"""
+    nat = native_logs(specs)
+    hists = [[("compile", "K5", "A"), ("run", "K5"), ("compile", "K5", "B"), ("run", "K5")],
+             [("compile", "K1", "B"), ("compile", "K6", "A"), ("run", "K6"), ("compile", "K6", "C"), ("run", "K6"), ("compile", "K2", "A")],
+             [("compile", "K5", "C"), ("compile", "K5", "B"), ("compile", "K5", "A"), ("run", "K5")]]
+    n = 0
+    for hist in hists:
+        w = World(specs)
+        rep = {"history": [list(h) for h in hist], "first_in_process": True}
+        for step, h in enumerate(hist):
+            if h[0] == "compile":
+                try:
+                    w.compile(h[1], h[2])
+                except Exception as e:
+                    ctx.fail({"kind": "compile-fails", "kernel": h[1], "first": True}, rep, f"step {step}: compiling {h[1]} with spec {h[2]} raised {type(e).__name__}: {str(e)[:120]}")
+                    break
+            for kname, (m, sk) in w.compiled.items():
+                got = w.run_compiled(kname)
+                want = nat.get((kname, sk))
+                ctx.evaluations += 1
+                n += 1
+                if want is not None and (got[0] != "ok" or got[1] != want):
+                    other = [s for s in specs if s != sk and nat.get((kname, s)) == got[1]]
+                    ctx.fail({"kind": "kernel-observes-wrong-spec" if other else "kernel-behaviour-differs", "kernel": kname, "first": True}, rep,
+                             f"after step {step} {h}: {kname} compiled with spec {sk} executes " + (f"the events its source gives under spec {other[0]}" if other else
+                             f"{len(got[1])} events / status {got[0]}, not the {len(want)} events its source gives under spec {sk}"))
+                else:
+                    ctx.nt(("first-history", tuple(map(tuple, hist)), step, kname))
+    ctx.count("observations in histories run before the check interprets any shared subroutine itself", n)
+
+
 def run(ctx):
     specs = two_specs()
+    first_histories(ctx, specs)
     expect = expected_logs(specs)
     base = World(specs).shared_behaviour()
     for (k, sk), v in expect.items():
@@ -374,6 +421,9 @@ def replay(data):
         def nt(s, *a): pass
     c = C()
     c.count = lambda *a: None
+    if inp.get("first_in_process"):
+        first_histories(c, specs)
+        return bool(c.fails), "; ".join(c.fails[:2])[:300] or "every kernel executes the events of its source under its own spec"
     if inp.get("source_reference"):
         source_reference(c, specs, expected_logs(specs))
         return bool(c.fails), "; ".join(c.fails[:2])[:300] or "the kernels execute the events of their source"
